@@ -52,6 +52,9 @@ rule pat_off { strings: $a = "ab" condition: for any i in (1..#a) : (@a[i] > 3) 
 rule pat_len { strings: $r = /q+/ condition: !r[1] >= 2 }
 rule pat_fs { strings: $a = "abc" condition: $a and filesize < 10 }
 rule pat_hdr { strings: $a = "abc" condition: uint16(0) == 0x3231 and $a }
+rule pat_cnt_abc { strings: $a = "abc" condition: #a == 1 }
+rule pat_first_abc { strings: $a = "abc" condition: @a[1] == 0 and !a[1] == 3 }
+rule pat_one_12 { strings: $a = "12" condition: #a == 1 and @a[#a] == 0 }
 private rule priv_abc { strings: $a = "abc" condition: $a }
 rule uses_priv { condition: priv_abc }
 "#;
@@ -67,6 +70,8 @@ rule p_abc { strings: $a = "abc" $b = "bcd" condition: any of them }
 rule p_two { strings: $a = "ab" condition: #a == 2 }
 rule p_re { strings: $r = /[0-9]{3,}/ condition: $r }
 rule p_chain { strings: $h = { 41 42 43 [0-300] 44 45 46 } condition: $h }
+rule p_cnt_abc { strings: $a = "abc" condition: #a == 1 }
+rule p_first_re { strings: $r = /[0-9]{3,}/ condition: @r[1] == 0 and !r[1] >= 3 and #r <= 3 }
 rule p_none { strings: $a = "abc" condition: not $a }
 rule p_true { condition: true }
 global rule p_glob { strings: $q = "q" condition: not $q }
@@ -126,6 +131,19 @@ pub fn buffers() -> Vec<Vec<u8>> {
         b"MZ\x90\x00\x03\x00\x00\x00 abc HELLO secret x9y".to_vec(),
         b"54321".to_vec(),
     ]
+}
+
+/// A buffer whose scan makes the per-scan containers cross their size thresholds (PatternMatches::clear
+/// frees everything when the total capacity of the match lists exceeds 10000): about 15000 matches of `ab`
+/// for each pattern that looks for it, and a handful of matches for other patterns.
+pub fn heavy_buffer() -> Vec<u8> {
+    let mut v: Vec<u8> = b"ab".iter().cycle().take(30_000).copied().collect();
+    v[0..5].copy_from_slice(b"12345");
+    for at in [100usize, 24_010, 29_000] { v[at..at + 3].copy_from_slice(b"abc"); }
+    v[5_000..5_002].copy_from_slice(b"zz");
+    v[7_000..7_004].copy_from_slice(b"qqqq");
+    v[9_000..9_004].copy_from_slice(b"x42y");
+    v
 }
 
 #[derive(Clone, Debug, PartialEq)]
